@@ -32,6 +32,10 @@ def _table(which):
         return Table(d, ['b10', 'b9', 'c c'], ['S2', 'S10', 'z', 'y-q'],
                      [{'taxonomy': ['k__A', 'p__B']}, {'taxonomy': ['k__C']}, {'taxonomy': ['x']}],
                      [{'env': 'a'}, {'env': 'b, c'}, {'env': 'd:e'}, {'env': 'f'}], type='OTU table')
+    if which == 3:      # no table type: the document carries the literals null (type) next to strings and numbers
+        d = np.array([[0, -1.5, 0], [3, 0, 1e-7]])
+        return Table(d, ['b10', 'b9'], ['S2', 'S10', 'z'], [{'taxonomy': ['k__A']}, {'taxonomy': None}],
+                     [{'env': None, 'ok': True}, {'env': 'b', 'ok': False}, {'env': 'c', 'ok': None}])
     if which == 2:      # brackets, braces and quotes inside ids / metadata strings
         d = np.array([[0, 1.5, 0, 2], [3, 0, 0, 4], [0, 0, 0, 0]])
         return Table(d, ['b10', 'b9', 'c]c'], ['S2', 'S10', 'z', 'y"q'],
@@ -45,9 +49,9 @@ def _table(which):
 
 # everything that does not depend on the symbolic selectors is computed once, at import time (a lazily filled cache
 # would make executions differ between CrossHair iterations)
-_TABLES = {w: _table(w) for w in (0, 1, 2)}
+_TABLES = {w: _table(w) for w in (0, 1, 2, 3)}
 _DOCS = {}
-for _w in (0, 1, 2):
+for _w in (0, 1, 2, 3):
     _text = _TABLES[_w].to_json('verif')
     for _k, (_n, _kw) in enumerate(SERIALISATIONS):
         _DOCS[(_w, _k)] = _text if _kw is None else json.dumps(json.loads(_text), **_kw)
@@ -83,6 +87,20 @@ def slicer_small(ser: int, axis_sel: int, mask: int) -> bool:
     if not keep:
         return True
     return _check(0, ser, axis_sel, keep)
+
+
+def slicer_json_literals(ser: int, axis_sel: int, mask: int) -> bool:
+    """
+    require: 0 <= ser < 6 and 0 <= axis_sel < 2 and 1 <= mask < 8
+    """
+    n = 2 if axis_sel == 0 else 3
+    keep = [k for k in range(n) if (mask >> k) & 1]
+    if not keep:
+        return True
+    try:
+        return _check(3, ser, axis_sel, keep)
+    except Exception:       # noqa
+        return False
 
 
 def slicer_awkward_text(axis_sel: int, mask: int) -> bool:
@@ -142,6 +160,7 @@ def shards(tier):
     for ser in range(len(SERIALISATIONS)):
         for ax in (0, 1):
             out.append(('slicer_small', {'ser': ser, 'axis_sel': ax}))
+            out.append(('slicer_json_literals', {'ser': ser, 'axis_sel': ax}))
             out.append(('unknown_id_refused', {'ser': ser, 'axis_sel': ax}))
             if tier != 'quick':
                 for p1, p2 in [(a_, b_) for a_ in range(0, 9) for b_ in range(a_ + 1, 10)]:
